@@ -350,7 +350,7 @@ class RefServer:
             return enc + b"\r\n" + self.st(b"OK", None, b"Getscript completed.")
         if verb == "PUTSCRIPT" and len(strs) == 2 and len(args) == 2:
             name, content = strs
-            if not name or any(c < 0x20 for c in name):
+            if not name or (any(c < 0x20 for c in name) and not getattr(self, "lax_names", False)):
                 return self.st(b"NO", None, b"bad script name")
             if len(content) > self.quota:
                 return self.st(b"NO", b"QUOTA/MAXSIZE", b"Quota exceeded")
